@@ -50,7 +50,7 @@ Qed.
 
 Lemma w_insert_plain_names : forall s p e, h_hl e = 0%N ->
   names (w_insert s p e) = aput HardLink.path_eqb (names s) p e.
-Proof. intros. unfold w_insert. rewrite huhl_plain by assumption. reflexivity. Qed.
+Proof. intros. unfold w_insert, raw_put. simpl. now rewrite huhl_names. Qed.
 
 Lemma PS_insert : forall s p e, PS s -> h_hl e = 0%N -> good_list (h_chunks e) ->
   (h_dir e = true -> h_chunks e = []) -> PS (w_insert s p e).
